@@ -476,6 +476,9 @@ where
 
         write!(self.backend, "\nstartxref\n{}\n%%EOF", xref_pos).unwrap();
 
+        // everything pending is part of the file now
+        self.changes.clear();
+
         // update trailer which may have change now.
         self.cache.clear();
         *trailer = Trailer::from_dict(trailer_dict, &self.resolver())?;
